@@ -299,7 +299,7 @@ def unit_read_signal(prop, which):
         if which == "infer":
             return run_contract(prop, ("util", "_infer_force_as_from_rfilename"), C.contract_infer(), [("", C.setup_infer)], name="infer_force_as",
                                 to_case=C.to_case, replay_module="rtc.c11")
-        return run_contract(prop, ("util", "wds_read_signal"), C.contract_wds(), C.WDS_SETUPS, name="wds_read_signal", to_case=C.to_case, replay_module="rtc.c11")
+        return run_contract(prop, ("util", "wds_read_signal"), C.contract_wds(), C.WDS_SETUPS, name="wds_read_signal", to_case=C.to_case_wds, replay_module="rtc.c11")
     unit.__name__ = "read_signal_" + which
     return unit
 
